@@ -553,6 +553,61 @@ def fp2_cbrt(a):
     return None
 
 
+_CBRT1_CACHE = {}
+
+
+def fp_cbrt(a, p=None):
+    """a cube root of the integer `a` modulo the prime p (default BLS_P), or None"""
+    p = p or BLS_P
+    a %= p
+    if a == 0:
+        return 0
+    if p % 3 == 2:
+        return pow(a, (2 * p - 1) // 3, p)
+    if pow(a, (p - 1) // 3, p) != 1:
+        return None
+    s, t = 0, p - 1
+    while t % 3 == 0:
+        s, t = s + 1, t // 3
+    if p not in _CBRT1_CACHE:
+        g = 2
+        while pow(g, (p - 1) // 3, p) == 1:
+            g += 1
+        _CBRT1_CACHE[p] = pow(g, t, p)     # generator of the 3-Sylow subgroup
+    c = _CBRT1_CACHE[p]
+    x = pow(a, pow(3, -1, t), p)
+    ci = 1
+    for _ in range(3 ** s):
+        cand = x * ci % p
+        if pow(cand, 3, p) == a:
+            return cand
+        ci = ci * c % p
+    return None
+
+
+def g1_point_with_y(y):
+    """a point (x, y) of E(Fp): y^2 = x^3 + 4 with the given y, or None"""
+    x = fp_cbrt(y * y - 4, BLS_P)
+    return None if x is None else (Fp(x, BLS_P), Fp(y, BLS_P))
+
+
+def g1_points_y_boundary(n=3):
+    """points of E(Fp) whose y is as close as possible to the boundary of the ZCash sign rule ((p-1)/2 and (p+1)/2, from both
+    sides) and to the ends of the range (1.., p-1..): exactly where an inexact `2y // p` would tip over"""
+    out = []
+    h = (BLS_P - 1) // 2
+    for start, step in ((h, -1), (h + 1, 1), (1, 1), (BLS_P - 1, -1)):
+        y, found, tries = start, 0, 0
+        while found < n and tries < 200:
+            Pt = g1_point_with_y(y)
+            if Pt is not None:
+                out.append(Pt)
+                found += 1
+            y += step
+            tries += 1
+    return out
+
+
 def g2_point_with_y(y):
     """a point (x, y) of E'(Fp2) with the given y, or None"""
     x = fp2_cbrt(y * y - b2())
